@@ -131,4 +131,8 @@ theorem C12_wiring :
     Sso.Generated.skel_signer_removeEmpty =
       ["range{", "call:len", "if{", "call:append", "}", "}", "return"] := by decide
 
+/-- Tie (T1): the per-upstream HMAC key reaches the signer as configured: `parseEnvironment` keeps everything after the first `=`. -/
+theorem C12_signing_key_env : Sso.Generated.skel_proxy_parseEnvironment =
+    ["call:make", "call:len", "if{", "return", "}", "range{", "call:HasPrefix", "if{", "continue", "}", "call:SplitN", "call:TrimPrefix", "call:ToLower", "store:env[]", "}", "return"] := by decide
+
 end Sso.Forward
